@@ -15,20 +15,44 @@ from ..refsem import Cfg, Ref, Undecided
 PROPERTY = 'C01'
 LEVEL = 'model_checking'
 
-HELPERS = [
-    gs.Rule('r', ('alt', ('seq', ('tok', 'a'), ('tok', 'b')), ('tok', 'b'))),
-    gs.Rule('R', ('pat', 'b+')),
-    gs.Rule('s', ('seq', ('named', 'x', ('tok', 'a')), ('named', 'y', ('opt', ('tok', 'b'))))),
-]
+import re as _re
+
+# VERIF_SEED selects one of three complete token profiles (each tier enumerates the selected
+# profile completely): plain names, non-name tokens (no nameguard), and a token that is a
+# prefix of the other (ordered choice + nameguard interplay).
+PROFILES = [('a', 'b'), ('+', '-'), ('ab', 'a')]
+
+
+def profile(seed=0):
+    return PROFILES[seed % len(PROFILES)]
+
+
+def helpers_for(t1, t2):
+    return [
+        gs.Rule('r', ('alt', ('seq', ('tok', t1), ('tok', t2)), ('tok', t2))),
+        gs.Rule('R', ('pat', f'(?:{_re.escape(t2)})+')),
+        gs.Rule('s', ('seq', ('named', 'x', ('tok', t1)), ('named', 'y', ('opt', ('tok', t2))))),
+    ]
+
+
+def leaves_for(t1, t2):
+    return (
+        ('tok', t1), ('tok', t2), ('pat', _re.escape(t1)), ('pat', f'(?:{_re.escape(t2)})+'), ('call', 'r'), ('call', 'R'), ('call', 's'),
+        ('void',), ('fail',), ('eof',), ('dot',), ('const', 'k'), ('eclo',),
+    )
+
+
+def alphabet_for(t1, t2):
+    return sorted(set(t1 + t2)) + [' ']
+
+
+HELPERS = helpers_for('a', 'b')
 WRAP = [
     gs.Rule('top', ('seq', ('named', 'v', ('call', 'start')), ('named', 'rest', ('call', 'REST')))),
     gs.Rule('REST', ('pat', r'[\s\S]*')),
 ]
 
-LEAVES = (
-    ('tok', 'a'), ('tok', 'b'), ('pat', 'a'), ('pat', 'b+'), ('call', 'r'), ('call', 'R'), ('call', 's'),
-    ('void',), ('fail',), ('eof',), ('dot',), ('const', 'k'), ('eclo',),
-)
+LEAVES = leaves_for('a', 'b')
 UNARY = ('grp', 'opt', 'clo', 'pclo', 'look', 'nlook', 'ovr', 'ovrl', 'skipto')
 BINARY = ('seq', 'alt', 'join', 'pjoin', 'gather', 'pgather')
 NAMES = ('x',)
@@ -75,12 +99,12 @@ def _in_language(e) -> str | None:
     return None
 
 
-def build_grammar(e) -> gs.Grammar:
-    return gs.Grammar(rules=WRAP[:1] + [gs.Rule('start', e)] + HELPERS + WRAP[1:])
+def build_grammar(e, helpers=None) -> gs.Grammar:
+    return gs.Grammar(rules=WRAP[:1] + [gs.Rule('start', e)] + (helpers or HELPERS) + WRAP[1:])
 
 
-def expressions(maxn: int):
-    return gs.enum_upto(maxn, LEAVES, UNARY, BINARY, NAMES)
+def expressions(maxn: int, leaves=None):
+    return gs.enum_upto(maxn, leaves or LEAVES, UNARY, BINARY, NAMES)
 
 
 QUIRKS = ('later-none-iteration-dropped',)
@@ -149,14 +173,15 @@ def compare_case(m, g, model, ref, text, sig_prefix=''):
     return want[0] == 'ok' and want[2] > 0
 
 
-def shard(m, items, inputs=()):
+def shard(m, items, inputs=(), prof=('a', 'b')):
+    helpers = helpers_for(*prof)
     for e in items:
         why = in_language(e)
         if why:
             m.add('expressions_outside_language')
             m.note('outside_reasons', why)
             continue
-        g = build_grammar(e)
+        g = build_grammar(e, helpers)
         text = gs.render_grammar(g)
         try:
             model = impl.compile_text(text)
@@ -177,13 +202,15 @@ def shard(m, items, inputs=()):
 def run(rc):
     maxn = 3 if rc.tier == 'quick' else 4
     maxlen = 4 if rc.tier == 'quick' else 5
-    exps = expressions(maxn)
-    inputs = list(gs.inputs(['a', 'b', ' '], maxlen))
-    rc.rule = (f'all expression trees with <= {maxn} nodes over leaves {{a b /a/ /b+/ r R s () !() $ /./ `k` {{}}}} and '
+    prof = profile(rc.seed)
+    exps = expressions(maxn, leaves_for(*prof))
+    inputs = list(gs.inputs(alphabet_for(*prof), maxlen))
+    rc.coverage['token_profile'] = list(prof)
+    rc.rule = (f'token profile {prof} (selected by VERIF_SEED among {PROFILES}); all expression trees with <= {maxn} nodes over leaves {{t1 t2 /t1/ /t2+/ r R s () !() $ /./ `k` {{}}}} and '
                'operators {group optional closure +closure & ! -> x: x+: @: @+: sequence choice join gather (+/-)}, each compiled from text as '
-               f'`start` with helper rules, x all strings over {{a,b,space}} of length <= {maxlen}; compared with the reference evaluator on '
+               f'`start` with helper rules, x all strings over the tokens\' characters and space of length <= {maxlen}; compared with the reference evaluator on '
                'accept/reject, end offset (through a wrapper rule capturing the rest) and AST; non-trivial = accepted and consumed input')
-    rc.pmap(shard, exps, inputs=inputs)
+    rc.pmap(shard, exps, inputs=inputs, prof=prof)
     c = rc.total.counts
     rc.coverage.update({
         'states': c.get('states', 0),
